@@ -92,10 +92,10 @@ def lean_obligations(pid, thorough=False):
         res["failures"].append("audit file failed: " + out[-1500:])
         return res
     ok = {}
-    for m in re.finditer(r"'([^']+)' depends on axioms: \[([^\]]*)\]", out, re.S):
+    for m in re.finditer(r"'(\S+)' depends on axioms: \[([^\]]*)\]", out, re.S):
         ax = {a.strip() for a in m.group(2).replace("\n", " ").split(",") if a.strip()}
         ok[m.group(1)] = ax
-    for m in re.finditer(r"'([^']+)' does not depend on any axioms", out):
+    for m in re.finditer(r"'(\S+)' does not depend on any axioms", out):
         ok[m.group(1)] = set()
     for n in names:
         full = [k for k in ok if k == n or k.endswith("." + n)]
